@@ -1179,6 +1179,17 @@ pub fn c05x_gen(rng: &mut Rng, n: usize) -> Vec<Case> {
             let pos = rng.below(p.stanzas.len() + 1);
             p.stanzas.insert(pos, x.to_string());
         }
+        // a scan whose LATER arm matches the empty string inside the text (`\b` passes the checker's nullable test) while an
+        // earlier arm matches further on: the run must end with EmptyRegexCapture, not loop on the spot
+        if rng.chance(8) {
+            let x = *rng.pick(&[
+                "(module) @_ms {\n  scan \"abc\" {\n    \"c\" {\n      let last = $0\n    }\n    \"\\\\b\" {\n      let boundary = $0\n    }\n  }\n}\n",
+                "(module) @_ms {\n  scan \"x-y z\" {\n    \"z\" {\n    }\n    \"y\" {\n      print $0\n    }\n    \"\\\\b\" {\n    }\n  }\n}\n",
+                "(module) @_ms {\n  for w in [\"ab cd\", \"q\"] {\n    scan w {\n      \"d\" {\n      }\n      \"\\\\bc?\" {\n      }\n    }\n  }\n}\n",
+            ]);
+            let pos = rng.below(p.stanzas.len() + 1);
+            p.stanzas.insert(pos, x.to_string());
+        }
         let mut dsl = p.text();
         // other layouts of the same program: several statements on one line (statement columns beyond non-ASCII
         // text of the same line), tabs for indentation, non-ASCII string literals
